@@ -716,6 +716,28 @@ Example C05_example_transform_top :
     = SOk (AInst 2 [(1, AInt 19); (3, ANone)]).
 Proof. vm_compute. repeat split. Qed.
 
+(* del obj.a : the same computation as reset_<a>(_inplace=True) up to the value handed back,
+   hence the same refinement (SDelAttrOp is specified as reset_<a> in place) *)
+Theorem C05_delattr_refines_partial : forall ct h0 l a c d k sp s roots x,
+  nth_error (heap s) l = Some (OInst c d) -> lookup_cls ct c = Some k -> lookup_attr k a = Some sp ->
+  NoDup (map fst d) -> aok (absv (heap s) (VRef l)) = true ->
+  c_frozen k = false -> no_inval k -> fail_at s = None ->
+  ty_depth (a_ty sp) < FUEL -> ty_is_collection (a_ty sp) = false ->
+  match a_prepare sp with Some g => scalar_fn g = true | None => True end ->
+  nth x roots VNone = VRef l ->
+  literal_default a k sp ->
+  vscalar (class_default k a) = true \/ class_default k a = VMissing ->
+  let ah := mkah [] true true AMissing false None None [] None in
+  match step ct roots (OpDelAttr x a) s with
+  | (Ok r, s') => spec_helper ct h0 (absv (heap s) (VRef l)) (SDelAttrOp a) ah = SOk (absv (heap s') (VRef l)) /\
+                  (forall i, i <> l -> nth_error (heap s') i = nth_error (heap s) i)
+  | (Err e, s') => spec_helper ct h0 (absv (heap s) (VRef l)) (SDelAttrOp a) ah = SErr e /\ heap s' = heap s
+  end.
+Proof.
+  intros ct h0 l a c d k sp s roots x Hl Hc Ha Hd Hok Hfz Hni Hfa Hty Hnc Hp Hx Hlit Hdv.
+  exact (delattr_op_refines ct h0 l a c d k sp s Hl Hc Ha Hd Hok Hfz Hni Hfa Hty Hnc Hp roots x Hx Hlit Hdv).
+Qed.
+
 Print Assumptions C05_noop_if_false.
 Print Assumptions C05_noop_with_unchanged.
 Print Assumptions C05_noop_update_unchanged.
@@ -754,3 +776,4 @@ Print Assumptions C05_example_reset_top.
 Print Assumptions C05_transform_top_refines_partial.
 Print Assumptions C05_transform_top_copy_refines_partial.
 Print Assumptions C05_example_transform_top.
+Print Assumptions C05_delattr_refines_partial.
